@@ -88,6 +88,15 @@ func checkC13(c *Check) {
 								c.Bad(p.FuncKey(fn)+":embedded-writer-escapes", p.Pos(ref.Pos()), "the embedded http.ResponseWriter is passed to "+callName(y.Common())+"; writes through it bypass the status/size bookkeeping")
 							case *ssa.TypeAssert, *ssa.BinOp, *ssa.DebugRef:
 							case *ssa.MakeInterface, *ssa.ChangeInterface:
+								if fw := forwardsOf(y.(ssa.Value)); len(fw) > 0 {
+									// io.WriteString(w.ResponseWriter, s): a body write on the underlying writer (it calls the
+									// writer's WriteString or Write and nothing else); held to every obligation of Write below
+									for _, ci := range fw {
+										under["Write"] = append(under["Write"], ci)
+										c.Cond(isBodyWriter(fn), p.FuncKey(fn)+":underlying.Write", p.Pos(ci.Pos()), "underlying body write (io.WriteString) only in a body-writing method of responseWriter", "underlying Write is called outside responseWriter.Write (implicit status / HEAD suppression / size bypassed)")
+									}
+									continue
+								}
 								c.Bad(p.FuncKey(fn)+":embedded-writer-escapes", p.Pos(ref.Pos()), "the embedded http.ResponseWriter value is converted and may escape")
 							case *ssa.Return, *ssa.Store:
 								if _, isRet := y.(*ssa.Return); isRet && isStdUnwrap(fn) {
@@ -115,7 +124,7 @@ func checkC13(c *Check) {
 			case "WriteHeader":
 				c.Cond(fn == region, key, p.Pos(in.Pos()), "underlying WriteHeader is inside the status region "+p.FuncKey(region), "underlying WriteHeader is called outside the once-guarded status region: a second status line can reach the client")
 			case "Write":
-				c.Cond(fn == mW, key, p.Pos(in.Pos()), "underlying Write only in responseWriter.Write", "underlying Write is called outside responseWriter.Write (implicit status / HEAD suppression / size bypassed)")
+				c.Cond(fn == mW || isBodyWriter(fn), key, p.Pos(in.Pos()), "underlying Write only in responseWriter.Write (or a sibling body-writing method held to the same obligations)", "underlying Write is called outside responseWriter.Write (implicit status / HEAD suppression / size bypassed)")
 			case "Flush":
 				if fn == mF {
 					c.OK(key, p.Pos(in.Pos()), "underlying Flush only in responseWriter.Flush", 1)
@@ -361,77 +370,103 @@ func checkC13(c *Check) {
 
 	// ---- R4 Write
 	c.Rule("R4", "E1 guard-cut + E3", "underlying Write only after Written() held or WriteHeader(200) through the wrapper, only when method != HEAD; size grows only by the forwarded count", 3)
-	checkImplicit200(c, mW, under["Write"], "Write")
+	writers := map[*ssa.Function]bool{mW: true}
+	var writerList = []*ssa.Function{mW}
 	for _, u := range under["Write"] {
-		if u.Parent() != mW {
-			continue
-		}
-		g := edgesWhere(mW, headCond(p, vParam(mW, 0)), false)
-		ok, path := guardedBy(mW, g, isInstr(u))
-		if ok && len(g) > 0 {
-			c.OK(p.FuncKey(mW)+":head-guard", p.Pos(u.Pos()), "underlying Write only on the method != HEAD edge", numInstrs(mW))
-		} else {
-			c.Bad(p.FuncKey(mW)+":head-guard", p.Pos(u.Pos()), "body bytes can be forwarded for HEAD requests", path)
+		if f := u.Parent(); !writers[f] && isBodyWriter(f) {
+			writers[f] = true
+			writerList = append(writerList, f)
 		}
 	}
-	// converse: a non-HEAD Write always forwards (no status- or size-dependent filter drops the body)
-	{
-		notHead := edgesWhere(mW, headCond(p, vParam(mW, 0)), true)
-		var us []ssa.Instruction
+	c.Extra["body_writing_methods"] = len(writerList)
+	for _, bw := range writerList {
+		bw := bw
+		what := bw.Name()
+		_ = what
+		checkImplicit200(c, bw, under["Write"], bw.Name())
 		for _, u := range under["Write"] {
-			if u.Parent() == mW {
-				us = append(us, u)
+			if u.Parent() != bw {
+				continue
+			}
+			g := edgesWhere(bw, headCond(p, vParam(bw, 0)), false)
+			ok, path := guardedBy(bw, g, isInstr(u))
+			if ok && len(g) > 0 {
+				c.OK(p.FuncKey(bw)+":head-guard", p.Pos(u.Pos()), "underlying Write only on the method != HEAD edge", numInstrs(bw))
+			} else {
+				c.Bad(p.FuncKey(bw)+":head-guard", p.Pos(u.Pos()), "body bytes can be forwarded for HEAD requests", path)
 			}
 		}
-		in, path := Query{Fn: mW, Cut: notHead, Avoid: inSet(us)}.FromEntry(isReturn)
-		if in == nil && len(us) > 0 {
-			c.OK(p.FuncKey(mW)+":always-forwards", p.FuncPos(mW), "for methods other than HEAD every path through Write reaches the underlying Write", numInstrs(mW))
-		} else {
-			c.Bad(p.FuncKey(mW)+":always-forwards", p.FuncPos(mW), "Write can return without forwarding the bytes although the request is not HEAD (e.g. a status-dependent filter): callers that rendered a body lose it", blockPath(path))
+		// converse: a non-HEAD Write always forwards (no status- or size-dependent filter drops the body)
+		{
+			notHead := edgesWhere(bw, headCond(p, vParam(bw, 0)), true)
+			var us []ssa.Instruction
+			for _, u := range under["Write"] {
+				if u.Parent() == bw {
+					us = append(us, u)
+				}
+			}
+			in, path := Query{Fn: bw, Cut: notHead, Avoid: inSet(us)}.FromEntry(isReturn)
+			if in == nil && len(us) > 0 {
+				c.OK(p.FuncKey(bw)+":always-forwards", p.FuncPos(bw), "for methods other than HEAD every path through Write reaches the underlying Write", numInstrs(bw))
+			} else {
+				c.Bad(p.FuncKey(bw)+":always-forwards", p.FuncPos(bw), "Write can return without forwarding the bytes although the request is not HEAD (e.g. a status-dependent filter): callers that rendered a body lose it", blockPath(path))
+			}
 		}
-	}
-	nSize := 0
-	for _, u := range p.FieldUses(fSize) {
-		if u.Kind == "load" || u.Fresh {
-			continue
-		}
-		key := p.FuncKey(u.Fn) + ":size." + u.Kind
-		pos := p.Pos(u.Instr.Pos())
-		st, isStore := u.Instr.(*ssa.Store)
-		if !isStore || u.Fn != mW {
-			c.Bad(key, pos, "size is modified outside Write()")
-			continue
-		}
-		nSize++
-		fromUnder := func(v ssa.Value) bool {
-			e, ok := strip(v).(*ssa.Extract)
-			if !ok || e.Index != 0 {
+		nSize := 0
+		for _, u := range p.FieldUses(fSize) {
+			if u.Kind == "load" || u.Fresh {
+				continue
+			}
+			key := p.FuncKey(u.Fn) + ":size." + u.Kind
+			pos := p.Pos(u.Instr.Pos())
+			st, isStore := u.Instr.(*ssa.Store)
+			if !isStore || !writers[u.Fn] {
+				c.Bad(key, pos, "size is modified outside Write()")
+				continue
+			}
+			if u.Fn != bw {
+				continue
+			}
+			nSize++
+			fromUnder := func(v ssa.Value) bool {
+				e, ok := strip(v).(*ssa.Extract)
+				if !ok || e.Index != 0 {
+					return false
+				}
+				cl, ok := e.Tuple.(*ssa.Call)
+				if !ok {
+					return false
+				}
+				for _, u := range under["Write"] {
+					if u == ssa.CallInstruction(cl) {
+						return true
+					}
+				}
 				return false
 			}
-			cl, ok := e.Tuple.(*ssa.Call)
-			return ok && cl.Call.IsInvoke() && cl.Call.Method.Name() == "Write" && embeddedWriterRead(cl.Call.Value)
+			ok := vBin(token.ADD, vField(vParam(bw, 0), "size"), fromUnder)(st.Val)
+			c.Cond(ok, key, pos, "size += count returned by the underlying Write", "size is updated with "+vstr(st.Val)+" instead of the count the underlying writer reported")
 		}
-		ok := vBin(token.ADD, vField(vParam(mW, 0), "size"), fromUnder)(st.Val)
-		c.Cond(ok, key, pos, "size += count returned by the underlying Write", "size is updated with "+vstr(st.Val)+" instead of the count the underlying writer reported")
-	}
-	if nSize == 0 {
-		c.Bad(p.FuncKey(mW)+":size.store", p.FuncPos(mW), "Write() never updates size")
-	}
-	// every byte count the underlying writer reports is added, also when it comes with an error
-	isSizeStore := func(in ssa.Instruction) bool {
-		st, ok := in.(*ssa.Store)
-		return ok && fieldOf(strip(st.Addr)) == fSize
-	}
-	for _, u := range under["Write"] {
-		if u.Parent() != mW {
-			continue
+		if nSize == 0 {
+			c.Bad(p.FuncKey(bw)+":size.store", p.FuncPos(bw), "Write() never updates size")
 		}
-		in, path := Query{Fn: mW, Avoid: isSizeStore}.After(u, isReturn)
-		if in == nil {
-			c.OK(p.FuncKey(mW)+":size-on-every-path", p.Pos(u.Pos()), "every path from the underlying Write to return adds the reported count to size", numInstrs(mW))
-		} else {
-			c.Bad(p.FuncKey(mW)+":size-on-every-path", p.Pos(u.Pos()), "a path returns after the underlying Write without adding the forwarded byte count to size (e.g. a partial write reported together with an error)", blockPath(path))
+		// every byte count the underlying writer reports is added, also when it comes with an error
+		isSizeStore := func(in ssa.Instruction) bool {
+			st, ok := in.(*ssa.Store)
+			return ok && fieldOf(strip(st.Addr)) == fSize
 		}
+		for _, u := range under["Write"] {
+			if u.Parent() != bw {
+				continue
+			}
+			in, path := Query{Fn: bw, Avoid: isSizeStore}.After(u, isReturn)
+			if in == nil {
+				c.OK(p.FuncKey(bw)+":size-on-every-path", p.Pos(u.Pos()), "every path from the underlying Write to return adds the reported count to size", numInstrs(bw))
+			} else {
+				c.Bad(p.FuncKey(bw)+":size-on-every-path", p.Pos(u.Pos()), "a path returns after the underlying Write without adding the forwarded byte count to size (e.g. a partial write reported together with an error)", blockPath(path))
+			}
+		}
+
 	}
 
 	// ---- R5 Flush
@@ -694,4 +729,35 @@ func isStdUnwrap(fn *ssa.Function) bool {
 		}
 	})
 	return ok
+}
+
+// isBodyWriter: a method of responseWriter with the results (int, error) — Write, or a sibling such as
+// WriteString (io.StringWriter). Every such method that reaches the underlying writer's body is held to
+// the obligations of R4.
+func isBodyWriter(fn *ssa.Function) bool {
+	if fn == nil || fn.Signature.Recv() == nil || namedName(derefT(fn.Signature.Recv().Type())) != "responseWriter" {
+		return false
+	}
+	r := fn.Signature.Results()
+	return r.Len() == 2 && r.At(0).Type().String() == "int" && r.At(1).Type().String() == "error"
+}
+
+// forwardsOf: v (the embedded writer converted to io.Writer) is used only as the destination of
+// io.WriteString calls; those calls are returned.
+func forwardsOf(v ssa.Value) []ssa.CallInstruction {
+	var out []ssa.CallInstruction
+	for _, r := range referrers(v) {
+		ci, ok := r.(ssa.CallInstruction)
+		if !ok {
+			if _, isDbg := r.(*ssa.DebugRef); isDbg {
+				continue
+			}
+			return nil
+		}
+		if callName(ci.Common()) != "io.WriteString" || len(ci.Common().Args) != 2 || ci.Common().Args[0] != v {
+			return nil
+		}
+		out = append(out, ci)
+	}
+	return out
 }
